@@ -203,5 +203,61 @@ def liveRoutes (hs : List Holder) : List Route :=
   hs.flatMap (fun h => h.keys.map (fun k =>
     ({ domain := toLower k.1, location := k.2, user := h.user, payload := h.id } : Route)))
 
+/-! ### Credentials of http routes (`RouteConfig.Username` / `Password` = the proxy's httpUser / httpPassword)
+
+  server/proxy/http.go `Run` puts the proxy's credentials into the `RouteConfig` it registers;
+  pkg/util/vhost/http.go `authorize` / `CheckAuth` compares the request's basic-auth pair with the credentials
+  of the route the request resolves to.  For a load-balancing group the stored route is a copy of the FIRST
+  member's config (server/group/http.go `HTTPGroup.Register`: `tmp := routeConfig`), and a joining member's
+  config is compared in group, domain, location, routeByHTTPUser and key only — not in its credentials
+  (server/group/tcpmux.go compares them). -/
+
+/-- (Username, Password) -/
+abbrev Creds := Str × Str
+
+/-- `CheckAuth`: refuse iff `(checkUser != "" || checkPasswd != "") && (checkUser != user || checkPasswd != passwd)` -/
+def checkAuth (c : Creds) (u p : Str) : Bool :=
+  !(decide (c.1 ≠ [] ∨ c.2 ≠ []) && decide (c.1 ≠ u ∨ c.2 ≠ p))
+
+/-- does `HTTPGroup.Register` compare the credentials of a joining member with the group's?  `false` = the code
+    as it is; `true` = with hooks/C06-fix-httpgroup-credentials.patch applied -/
+def groupChecksCreds : Bool := false
+
+/-- the part of an `HTTPGroup` that matters for credentials: the route stored in the table carries the first
+    member's, each member (proxy instance) is configured with its own -/
+structure CGroup where
+  route   : Creds
+  members : List (Nat × Creds)
+deriving DecidableEq, Repr
+
+inductive GOp
+  | join (id : Nat) (c : Creds)     -- a proxy with the group's name, key, domain, location and route user
+  | leave (id : Nat)
+deriving DecidableEq, Repr
+
+/-- `HTTPGroup.Register` / `UnRegister` on one group (`none` = the group does not exist); `chk` = joins
+    compare the credentials too and are refused (`ErrGroupParamsInvalid`) when they differ -/
+def cstep (chk : Bool) : Option CGroup → GOp → Option CGroup
+  | none, .join id c => some { route := c, members := [(id, c)] }
+  | some g, .join id c =>
+    if chk = true ∧ g.route ≠ c then some g else some { g with members := g.members ++ [(id, c)] }
+  | none, .leave _ => none
+  | some g, .leave id =>
+    if g.members.filter (fun m => m.1 ≠ id) = [] then none
+    else some { g with members := g.members.filter (fun m => m.1 ≠ id) }
+
+def crun (chk : Bool) (ops : List GOp) : Option CGroup := ops.foldl (cstep chk) none
+
+def cmembers : Option CGroup → List (Nat × Creds)
+  | none => []
+  | some g => g.members
+
+/-- the proxies a request with basic-auth pair (u, p) resolving to the group's route may be handed to:
+    `CheckAuth` against the ROUTE's credentials, then any member (`createConn` / `createConnByEndpoint`) -/
+def cserve (g : Option CGroup) (u p : Str) : List Nat :=
+  match g with
+  | none => []
+  | some g => if checkAuth g.route u p then g.members.map (·.1) else []
+
 end VhostReg
 end Frp
